@@ -1144,6 +1144,10 @@ class RTCSctpTransport(AsyncIOEventEmitter):
         """
         Handle a DATA chunk.
         """
+        if self._last_received_tsn is None:
+            # the peer's initial TSN is not known yet
+            return
+
         self._sack_needed = True
 
         # mark as received
@@ -1164,6 +1168,10 @@ class RTCSctpTransport(AsyncIOEventEmitter):
         """
         Handle a FORWARD TSN chunk.
         """
+        if self._last_received_tsn is None:
+            # the peer's initial TSN is not known yet
+            return
+
         self._sack_needed = True
 
         # it's a duplicate
